@@ -522,9 +522,10 @@ package rapid
 //@ func (*T).fail
 //@   requires [C14] unlocked(t)
 //@   ensures [C02,C08,C11,C13,C14] t.failed != ""
-//@   ensures [C02,C08,C11,C13] !now && implies(msg != "", t.failed == stopTest(msg))
+//   (C05 too: a fatal call never returns - that is what tells its site from the one site of all non-fatal failures)
+//@   ensures [C02,C05,C08,C11,C13] !now && implies(msg != "", t.failed == stopTest(msg))
 //@   ensures [C14] unlocked(t)
-//@   panics stopTest [C02,C08,C11,C13,C14]: now && t.failed != "" && strOf(panicval) == t.failed && unlocked(t)
+//@   panics stopTest [C02,C05,C08,C11,C13,C14]: now && t.failed != "" && strOf(panicval) == t.failed && unlocked(t)
 //@   modifies t.failed, lockmode[addr(t.mu)]
 
 //@ func (*T).failOnError
@@ -593,11 +594,12 @@ package rapid
 //@   modifies t.cleanups, elems(t.cleanups), lockmode[addr(t.mu)]
 
 //@ func (*T).Context
-//@   requires [C14] unlocked(t) && ctxInv(t)
+//@   requires [C07,C14] unlocked(t) && ctxInv(t)
 //@   ensures [C10,C11,C14] result != nil && unlocked(t) && ctxInv(t)
 //@   ensures [C10,C11,C14] implies(old(t.ctx) != nil, result == old(t.ctx) && t.ctx == old(t.ctx) && t.cancelCtx == old(t.cancelCtx))
-//@   ensures [C10,C11,C14] result == t.ctx || cancelled[result]
-//@   ensures [C10,C11,C14] implies(t.ctx != nil, !cancelled[t.ctx])
+//   (C07 too: a context kept on the T is kept for the next test case of findBug, which must be a function of its seed alone)
+//@   ensures [C07,C10,C11,C14] result == t.ctx || cancelled[result]
+//@   ensures [C07,C10,C11,C14] implies(t.ctx != nil, !cancelled[t.ctx])
 //@   ensures [C10] implies(!cleaning(t), result == t.ctx)
 //@   modifies t.ctx, t.cancelCtx, lockmode[addr(t.mu)], cancelled
 
@@ -617,22 +619,23 @@ package rapid
 //@ ghost cbFalsified Bool
 
 //@ func (*T).cleanup
-//@   requires [C10,C14] unlocked(t) && ctxInv(t)
+//@   requires [C01,C10,C14] unlocked(t) && ctxInv(t)
 //   A failure of a cleanup function is not hidden by a skip of another one (C02): once a cleanup function has panicked
 //   with a non-skip value, the panic that leaves cleanup() is not a skip.
 //@   at cleanup#0 onpanic cbFalsified = cbFalsified || !isInvalidData(panicval)
 //@   ensures [C02] implies(!old(cbFalsified), !cbFalsified)
-//@   ensures [C10,C11,C14] len(t.cleanups) == 0 && t.ctx == nil && t.cancelCtx == nil && !cleaning(t)
+//   (C01 too: findBug re-uses the T; the case it reports must have run as it would on the fresh T of the replay)
+//@   ensures [C01,C10,C11,C14] len(t.cleanups) == 0 && t.ctx == nil && t.cancelCtx == nil && !cleaning(t)
 //@   ensures [C14] unlocked(t)
 //@   ensures [C10] implies(old(t.ctx) != nil, cancelled[old(t.ctx)])
 //@   ensures [C02] implies(old(t.failed) != "", t.failed != "")
 //@   ensures [C10] sameOrNewArr(t) && drawn >= old(drawn)
-//@   panics any [C10,C11,C14]: drawn >= old(drawn) && sameOrNewArr(t) && len(t.cleanups) == 0 && t.ctx == nil && t.cancelCtx == nil && !cleaning(t) && unlocked(t) && implies(old(t.ctx) != nil, cancelled[old(t.ctx)]) && implies(old(t.failed) != "", t.failed != "") && implies(!old(cbFalsified) && cbFalsified, !isInvalidData(panicval))
+//@   panics any [C01,C10,C11,C14]: drawn >= old(drawn) && sameOrNewArr(t) && len(t.cleanups) == 0 && t.ctx == nil && t.cancelCtx == nil && !cleaning(t) && unlocked(t) && implies(old(t.ctx) != nil, cancelled[old(t.ctx)]) && implies(old(t.failed) != "", t.failed != "") && implies(!old(cbFalsified) && cbFalsified, !isInvalidData(panicval))
 //@   modifies t.failed, t.cleanups, elems(t.cleanups), t.ctx, t.cancelCtx, t.cleaning.v, t.draws, t.attempts, drawn, cancelled[t.ctx], lockmode[addr(t.mu)], cbFalsified
 //   LIFO (C10): the callback run is the one just popped from the top of the stack - the element right above the
 //   new top in the same backing array.
 //@   at cleanup#0 assert [C10] fnval == t.cleanups[len(t.cleanups)]
-//@   loop 0 invariant [C10,C14] unlocked(t) && t.ctx == nil && t.cancelCtx == nil && cleaning(t)
+//@   loop 0 invariant [C01,C10,C14] unlocked(t) && t.ctx == nil && t.cancelCtx == nil && cleaning(t)
 //@   loop 0 invariant [C02] cbFalsified == old(cbFalsified)
 //@   loop 0 invariant [C10] implies(old(t.ctx) != nil, cancelled[old(t.ctx)]) && implies(old(t.failed) != "", t.failed != "") && sameOrNewArr(t) && drawn >= old(drawn)
 
@@ -728,7 +731,7 @@ package rapid
 //@   requires [C08] t.failed == "" && unlocked(t)
 //@   ensures [C02,C08] t.failed == "" && implies(skipped, invalid) && unlocked(t) && drawn >= old(drawn)
 //   An action counts as skipped only if it gave up before starting any Draw - then it has discarded nothing (C04).
-//@   ensures [C04,C07,C08] implies(skipped, t.attempts == old(t.attempts) && discards == old(discards))
+//@   ensures [C04,C07,C08,C11] implies(skipped, t.attempts == old(t.attempts) && discards == old(discards))
 //@   ensures [C04,C08] drawRely(t)
 //@   panics any [C02,C08]: unlocked(t) && implies(isInvalidData(panicval), t.failed != "") && drawRely(t)
 //@   modifies drawn, t.failed, t.cleanups, elems(t.cleanups), t.ctx, t.cancelCtx, t.draws, t.attempts, lockmode[addr(t.mu)], stream(t.s), discards
@@ -779,7 +782,7 @@ package rapid
 //@   frame-only cmdline [C04,C07,C11]
 //@   assumes-nonnil-calls "the actions map given to Repeat holds no nil functions"
 //@   requires [C08] t.failed == "" && unlocked(t)
-//@   requires [C08] pendingCheck
+//@   requires [C08,C17] pendingCheck
 //@   ensures [C08] t.failed == "" && unlocked(t)
 //   Repeat does not return without having run the invariant, whatever the step budget - unless there is no action at all.
 //@   ensures [C08] implies(pendingCheck, len(now(actionKeys)) == 0)
@@ -790,14 +793,14 @@ package rapid
 //   The action drawn for given bits does not depend on the iteration order of the actions map (C04, C07): the names
 //   are sampled from a slice in the total order on strings (map keys are distinct, so that order is unique).
 //@   at SampledFrom#0 assert [C04,C07] sortedG[arr(arg0)]
-//@   at sm.check#0 assert [C08] pendingCheck && t.failed == ""
+//@   at sm.check#0 assert [C08,C17] pendingCheck && t.failed == ""
 //@   at sm.check#0 set pendingCheck = false
 //@   at repeat.more#0 assert [C08] !pendingCheck
 //@   at sm.executeAction#0 assert [C08] !pendingCheck
 //@   at sm.executeAction#0 set pendingCheck = result
-//@   at sm.check#1 assert [C08] pendingCheck && t.failed == ""
+//@   at sm.check#1 assert [C08,C17] pendingCheck && t.failed == ""
 //@   at sm.check#1 set pendingCheck = false
-//@   at repeat.reject#0 assert [C08] !pendingCheck
+//@   at repeat.reject#0 assert [C08,C17] !pendingCheck
 //@   loop 1 invariant [C08] t.failed == "" && unlocked(t) && !pendingCheck && repeatInv(repeat) && groupUsed(repeat)
 //@   loop 1 invariant [C04] drawRely(t) && implies(repeat.rejected, t.attempts > old(t.attempts))
 
@@ -1331,6 +1334,20 @@ package rapid
 //@   loop 4 invariant [C15] -1 <= rangeindex && rangeindex < len(t.R32) && (arr(ret) == nil || !published[arr(ret)] && fresh(arr(ret)))
 //@   loop 5 invariant [C15] arr(ret) == nil || !published[arr(ret)] && fresh(arr(ret))
 
+// A byte slice handed out by SliceOfBytesMatching is the caller's own (C03: it still matches after the next draw): it
+// is read from a buffer this very call allocated, not from anything kept on the generator.
+//@ func (*regexpSliceGen).maybeSlice
+//@   noframe "builds the value through the regexp-driven generator"
+//@   nosafety "only where the result comes from is under proof"
+//@   at b.Bytes#0 assert [C03] fresh(recv)
+//@   ensures [C03] true
+//@   panics any: true
+//@   modifies heap, drawn, discards, lastWord
+//@ func (*regexpGen).build
+//@   trusted "regexp-driven construction of a string: regexp/syntax trees are outside the modelled subset"
+//@   panics any: true
+//@   modifies heap, drawn, discards, lastWord
+
 // A character-class generator is built around the table the process-wide cache hands out: that table is shared with
 // every other generator of the class (and with concurrent checks) and is used as it is, never written (C15).
 //@ func charClassGen
@@ -1586,6 +1603,21 @@ package rapid
 //@   ensures [C01,C05] shrInv(old(s)) && flags.debugvis == old(flags.debugvis)
 //@   panics testError [C01,C05]: flags.debugvis == old(flags.debugvis)
 //@   modifies heap, drawn, lockmode, cancelled, cmpAt, lessAt, propFalsified, cleanupSkipped, discards, cleanupFalsified, cbFalsified, acceptedG
+
+// Second contract of minimizeBlocks, about its own loop (the contract below is what callers use): every word the
+// loop passes is handed to minimize, exactly that word, none left out for its value (C12: the boundary of a
+// threshold on a full-range integer is reached only if the word holding it - whatever it reads - is lowered).
+// minBlocksG: number of minimize calls made by the loop so far
+//@ ghost minBlocksG (_ BitVec 64)
+//@ func (*shrinker).minimizeBlocks@every
+//@   noframe "runs the property through minimize's condition"
+//@   nosafety "index arithmetic of the pass is not under proof"
+//@   requires [C12] minBlocksG == 0
+//@   at minimize#0 assert [C12] arg0 == s.rec.data[i]
+//@   at minimize#0 set minBlocksG = minBlocksG + 1
+//@   loop 0 invariant [C12] minBlocksG == i && i >= 0
+//@   panics any: true
+//@   modifies heap, drawn, lockmode, cancelled, minBlocksG
 
 //@ func (*shrinker).minimizeBlocks
 //@   trusted "follows from the contract of its function literal (proved above: the candidate is a fresh copy, the invariant is kept) and from minimize calling nothing but that literal"
